@@ -1036,6 +1036,14 @@ func (e *Engine) killTarget(st *State, l ast.Expr) *State {
 		return st.killObj(objOf(e.Info, x))
 	case *ast.SelectorExpr:
 		if fld := selField(e.Info, x); fld != nil {
+			// a store into a field of a local struct value changes that variable
+			if sel, ok := e.Info.Selections[x]; ok && !sel.Indirect() {
+				if b := e.canon(st, x.X); b.OK && b.Value {
+					for _, o := range b.Objs {
+						st = st.killObj(o)
+					}
+				}
+			}
 			return st.killField(fld)
 		}
 		if v, ok := e.Info.Uses[x.Sel].(*types.Var); ok {
